@@ -12,12 +12,40 @@ def run(tier, seed):
         res = run_shards(exe, ['--db=' + db, '--oracle=' + path], tier=tier, seed=seed, timeout=3600)
         rep.absorb(res)
         tot[db] = len(zones)
+    # ---- generated tables: the C03 era-chain and year-edge products compiled by the real pipeline, both scopes
+    import calendar, gensweep
+    from pyexp import mutants, pipeline
+    from oracle import zicrun
+    rules, chains = mutants.era_chains()
+    edge = mutants.year_boundary()
+    text = rules + '\n' + '\n'.join(c_[3] for c_ in chains) + '\n' + '\n'.join(c_[3] for c_ in edge) + '\n'
+    label = {c_[4]: c_[2] for c_ in chains + edge}
+    names = sorted(label)
+    ztabs = zicrun.compile_text(text, names, lo=calendar.timegm((1999, 1, 1, 0, 0, 0)), hi=calendar.timegm((2051, 1, 1, 0, 0, 0)), crosscheck=False, tag='c07-gen')
+    gen_zones = 0
+    for scope in ('extended', 'basic'):
+        comp = pipeline.compile_text(text, scope, start_year=2000, until_year=2050)
+        res, err = gensweep.run_generated('c07_localtime.cpp', comp, ztabs, [], tier, seed)
+        if res is None:
+            raise runner.Broken('generated tables do not build for C07: ' + err[-400:])
+        # re-key by the input class instead of the running zone number
+        for i, (k, d) in enumerate(res.violations):
+            zn = d.get('zone') if isinstance(d, dict) else None
+            if zn in label:
+                nk = k.rsplit(':', 1)[0] + ':gen:' + label[zn].replace(' ', '_')
+                res.violations[i] = (nk, dict(d, source=label[zn]))
+        res.viol_totals = {}
+        rep.absorb(res)
+        gen_zones += len(comp.zone_infos)
+        tot['gen-' + scope] = len(comp.zone_infos)
     c = rep.coverage
+    c['generated_zones'] = gen_zones
     if c.get('zones', 0) != sum(tot.values()):
         rep.violation('c07:coverage-mismatch', {'zones_done': c.get('zones'), 'expected': tot})
     rep.assumptions += [
         'oracle pre-image sets S(L) = {t : t + off(t) = L} computed from the zic table of the zone\'s own recorded lines',
         'overlap: any real occurrence accepted for Basic, the later one required for Extended; gap: instant = L - offset in force before the gap',
+        'generated tables: the era-chain (1,392) and year-edge (1,344) products of C03, compiled by the real pipeline in both scopes and resolved the same way against the zic tables of the same source',
         'wall times whose +-18 h window holds an irregular pattern (no single enclosing gap) are counted as complex_not_judged (still must be non-error and normalised)',
     ]
     return rep.finish(exhaustive=True, extra={
